@@ -25,7 +25,7 @@ from harness import common
 from harness.common import Model
 
 PID = "C08"
-TRANSLATORS = ["T-hashes", "T-storeconsts"]
+TRANSLATORS = ["T-hashes", "T-storeconsts", "T-storeaxioms"]
 
 # Genuine defects of halmos reproduced by this check on the unchanged tree.  A failing input
 # whose `sig` matches one of these is printed as KNOWN-FINDING and does not fail the check.
